@@ -18,7 +18,6 @@ import (
 	"math/big"
 	"net"
 	"net/netip"
-	"sort"
 	"strings"
 	"sync"
 	"testing"
@@ -277,11 +276,11 @@ func c12GenRoutes(t *rapid.T, fam4, fam6 bool) []string {
 	var out []string
 	for i := 0; i < n; i++ {
 		use6 := fam6 && (!fam4 || rapid.Bool().Draw(t, "r6"))
-		if rapid.IntRange(0, 9).Draw(t, "rother") == 0 {
+		if rapid.IntRange(0, 9).Draw(t, "rother") == 9 {
 			use6 = !use6
 		}
 		p := c12GenSubnet(t, use6)
-		if rapid.IntRange(0, 9).Draw(t, "rhost") == 0 {
+		if rapid.IntRange(0, 9).Draw(t, "rhost") == 9 {
 			// host bits set in the textual form
 			a := c12AddrAt(p, int64(1))
 			out = append(out, netip.PrefixFrom(a, p.Bits()).String())
@@ -413,7 +412,7 @@ func c12GenAllocs(t *rapid.T, w *c12World, trunk bool) []c12Alloc {
 	// interface names: distinct; usually exactly one primary ("eth0", or "" as written by
 	// the controller's fall-back path), sometimes none (the daemon must then refuse).
 	primaryAt := rapid.IntRange(0, n-1).Draw(t, "primary_at")
-	noPrimary := rapid.IntRange(0, 11).Draw(t, "no_primary") == 0
+	noPrimary := rapid.IntRange(0, 11).Draw(t, "no_primary") == 11
 	names := rapid.Permutation(c12IfNames).Draw(t, "names")
 	// default-route flags: mostly none (what the controller writes), sometimes one,
 	// sometimes several (the daemon must refuse duplicates).
@@ -469,16 +468,16 @@ func c12GenWorld(t *rapid.T) c12World {
 		w.Svc6 = c12GenSubnet(t, true).String()
 	}
 	w.Patch = rapid.Bool().Draw(t, "patch")
-	w.Repeat = rapid.IntRange(0, 3).Draw(t, "repeat") == 0
+	w.Repeat = rapid.IntRange(0, 3).Draw(t, "repeat") == 3
 
 	nENI := rapid.IntRange(1, vt.Scale(3, 5)).Draw(t, "nenis")
 	reg := &c12VswReg{}
 	switch w.Kind {
 	case c12KLocal, c12KCRD:
-		w.Pod.ERdma = w.Kind == c12KLocal && rapid.IntRange(0, 5).Draw(t, "pod_erdma") == 0
+		w.Pod.ERdma = w.Kind == c12KLocal && rapid.IntRange(0, 5).Draw(t, "pod_erdma") == 5
 		for i := 0; i < nENI; i++ {
 			e := c12GenENI(t, i, &w, rapid.IntRange(1, 4).Draw(t, "slots"), reg)
-			e.ERdma = rapid.IntRange(0, 3).Draw(t, "eni_erdma") == 0
+			e.ERdma = rapid.IntRange(0, 3).Draw(t, "eni_erdma") == 3
 			w.ENIs = append(w.ENIs, e)
 		}
 		if w.Kind == c12KLocal {
@@ -486,7 +485,7 @@ func c12GenWorld(t *rapid.T) c12World {
 			k := rapid.IntRange(0, nENI-1).Draw(t, "serving")
 			w.ENIs[k].ERdma = w.Pod.ERdma
 			w.ENIs[k].Busy[rapid.IntRange(0, len(w.ENIs[k].Busy)-1).Draw(t, "free_slot")] = false
-			if !w.Pod.ERdma && rapid.IntRange(0, 3).Draw(t, "with_trunk") == 0 {
+			if !w.Pod.ERdma && rapid.IntRange(0, 3).Draw(t, "with_trunk") == 3 {
 				w.Trunk = rapid.IntRange(0, nENI-1).Draw(t, "trunk_idx")
 				w.ENIs[w.Trunk].ERdma = false
 			}
@@ -937,6 +936,15 @@ func c12CheckReply(c *vt.Ctx, w *c12World, reply *rpc.AllocIPReply) {
 	}
 	if primaries < 1 {
 		c.Fatalf("reply does not include the primary interface: %v", ncs)
+	}
+	for _, nc := range ncs {
+		if nc.GetDefaultRoute() {
+			if nc.GetIfName() == "" || nc.GetIfName() == "eth0" {
+				c.Label("default-on-primary")
+			} else {
+				c.Label("default-on-secondary")
+			}
+		}
 	}
 
 	var wants []*c12Want
@@ -1518,7 +1526,7 @@ func c12GenDef(t *rapid.T) c12DefScenario {
 	e := rapid.Custom(func(t *rapid.T) c12DefEntry {
 		return c12DefEntry{
 			IfName:  rapid.SampledFrom([]string{"", "eth0", "eth0", "eth1", "eth2", "net1", "ETH0", "eth00"}).Draw(t, "if"),
-			Default: rapid.IntRange(0, 2).Draw(t, "default") == 0,
+			Default: rapid.IntRange(0, 2).Draw(t, "default") == 2,
 		}
 	})
 	return c12DefScenario{Entries: rapid.SliceOfN(e, 1, vt.Scale(6, 10)).Draw(t, "entries")}
@@ -1567,6 +1575,19 @@ func c12RunDef(c *vt.Ctx, s c12DefScenario) {
 	if got != 1 {
 		c.Fatalf("accepted list names %d default-route interfaces: %v", got, in)
 	}
+	if nDefault == 0 {
+		// not demanded by the property statement (any single default satisfies it);
+		// recorded so that a change of the defaulting rule is visible in the evidence
+		for _, nc := range in {
+			if nc.GetDefaultRoute() {
+				if nc.GetIfName() == "" || nc.GetIfName() == "eth0" {
+					c.Label("defaulted-on-primary")
+				} else {
+					c.Label("defaulted-on-secondary")
+				}
+			}
+		}
+	}
 	if nPrimary == 0 {
 		c.Fatalf("accepted list without the primary interface: %v", in)
 	}
@@ -1574,4 +1595,3 @@ func c12RunDef(c *vt.Ctx, s c12DefScenario) {
 
 func TestVerifC12DefaultRoute(t *testing.T) { vt.Run(t, c12GenDef, c12RunDef) }
 
-var _ = sort.Strings
